@@ -60,7 +60,8 @@ def project_pkg(d):
             children = sh["children"]
         else:
             children = []
-        sheets.append({"part": sh["part"], "children": children, "rows": rows, "sx": sorted(_clamp(x) for x in sx),
+        cfx = [{"dxf": _clamp(r["dxf_id"])} for cf in sh["cond_formats"] for r in cf["rules"]] if children else []
+        sheets.append({"part": sh["part"], "children": children, "rows": rows, "cfx": cfx, "sx": sorted(_clamp(x) for x in sx),
                        "ssx": sorted(_clamp(x) for x in ssx), "dxf": sorted(_clamp(x) for x in dxf)})
     st = d["styles"]
     return {"zipok": bool(d["ok"]), "ctok": bool(d["content_types"]["present"] and d["content_types"]["wellformed"]),
@@ -69,6 +70,8 @@ def project_pkg(d):
             "wbs": [{"name": s["name"], "id": s["sheet_id"], "rid": s["rid"]} for s in wb["sheets"]],
             "active": wb["active_tab"], "sheets": sheets,
             "nxf": len(st["cell_xfs"]), "ndxf": st["dxfs"], "nsst": d["sst"]["count"],
+            "dxfs": [{"font": x["font"], "fg": x["fg"], "bg": x["bg"], "border": x["border"], "numfmt": x["numfmt"],
+                      "prot": bool(x["protection"])} for x in st["dxf_list"]],
             "xfs": [{"font": x["fontId"], "fill": x["fillId"], "border": x["borderId"], "xf": x["xfId"],
                      "numfmt": x["numFmtId"]} for x in st["cell_xfs"]],
             "nfonts": st["fonts"], "nfills": st["fills"], "nborders": st["borders"], "ncsx": max(1, st["cell_style_xfs"]),
@@ -185,6 +188,26 @@ def comment(s, r, c, author="me <&>", text="note & <x>\nsecond line"):
     return {"a": "Comment", "s": s, "r": r, "c": c, "author": author, "text": text}
 
 
+def _fmt(font="", fg="", border="", numfmt="", prot=False, has=True):
+    return {"has": has, "font": font, "fg": fg, "bg": "", "border": border, "numfmt": numfmt, "prot": prot}
+
+
+def kind_fmt(kind):
+    """what the style the driver builds for a rule of this kind formats with (package.rs "CondFmt")"""
+    if kind.startswith("fill:"):
+        return _fmt(fg=kind[5:])
+    return {"none": _fmt(has=False), "empty": _fmt(), "numfmt": _fmt(numfmt="0.00"), "prot": _fmt(prot=True), "font": _fmt(font="b"),
+            "fontn": _fmt(font="n"), "border": _fmt(border="thin"),
+            "all": _fmt(font="b", fg="FF0000FF", border="thin", numfmt="0.00")}[kind]
+
+
+MC_KINDS = {"fillr": "fill:FFFF0000", "fillg": "fill:FF00FF00"}
+
+
+def condfmt(s, sqref, kinds):
+    return {"a": "CondFmt", "s": s, "sqref": sqref, "fmts": list(kinds), "fm": [kind_fmt(k) for k in kinds]}
+
+
 def sheet(name):
     return {"a": "AddSheet", "name": name}
 
@@ -204,6 +227,8 @@ def complete(st):
         st.setdefault("as", st["img"])
         st.setdefault("ext", st["as"].rsplit(".", 1)[1] if "." in st["as"] else "")
         st.setdefault("extl", st["ext"].lower())
+    if st["a"] == "CondFmt":                       # the model's kind names -> the driver's
+        st["fmts"] = [MC_KINDS.get(k, k) for k in st["fmts"]]
     return st
 
 
@@ -249,6 +274,17 @@ def known_finding_cases():
     cases.append({"steps": [{"a": "New"}, sheet("Img"), image(1, 1, 1, "sample1.png", "pic.gif"), image(1, 9, 1, "sample2.png", "Pic.PNG"),
                             image(1, 18, 1, "sample3.png", "ok.jpeg"), image(1, 27, 1, "sample1.png"), save(False)],
                   "family": "kf:media"})
+    # differential formats: every kind of style as the first differential format of a save (an index into an empty
+    # or foreign table shows there), equal styles shared, rules on several sheets (the table is shared by the sheets);
+    # KF12: number format / protection of a rule's style are not carried by the dxf
+    for kind in ["empty", "numfmt", "prot", "font", "fontn", "fill:FFFF0000", "fill:FF123456", "border", "all", "none"]:
+        cases.append({"steps": [{"a": "New"}, sheet("CF"), cell(1, 1, 1, "num", bits(5)), condfmt(1, "A1:A5", [kind]), save(False), save(True)],
+                      "family": "kf:dxf"})
+    cases.append({"steps": [{"a": "New"}, sheet("A"), sheet("B"), sheet("C"),
+                            condfmt(1, "A1:A5", ["fill:FFFF0000", "empty", "font"]), condfmt(1, "B1:B5", ["numfmt", "fill:FFFF0000"]),
+                            condfmt(2, "A1:A5", ["prot"]), condfmt(3, "C1:C9", ["font", "all", "none", "border", "fill:FF00FF00"]),
+                            condfmt(2, "D1:D5", ["fill:FF00FF00", "fontn", "empty"]), save(False),
+                            {"a": "RemoveSheet", "s": 1}, save(True)], "family": "kf:dxf"})
     return cases
 
 
@@ -262,6 +298,8 @@ NAMES = ["Sheet1", "My Sheet", "A&B <x>", "It's", "\u30b7\u30fc\u30c8", "S-1.2",
          "ends.", "  lead", "100%", "#hash", "a=b", "{c}", "Fran\u00e7ais"]
 URLS = ["http://example.com/", "https://example.com/a?x=1&y=2", "http://example.com/\u65e5\u672c", "mailto:a@b.c?subject=x y",
         "file:///C:/dir/f.xlsx", "http://example.com/\"q\"<>", "http://example.com/#frag", "ftp://h/p", "http://a/%20b"]
+CF_KINDS = ["empty", "numfmt", "prot", "font", "fontn", "border", "all", "none", "fill:FFFF0000", "fill:FF00FF00", "fill:FF123456",
+            "fill:FFFF0000", "empty"]
 NUMS = [0.0, -0.0, 1.0, -1.0, 1.5, 0.1 + 0.2, 1e300, -1e300, 5e-324, 2.2250738585072014e-308, 123456789012345680.0, 1e15, 1e16,
         1 / 3, 1e-7, 9007199254740993.0, 4.35, 100.0, 65535.0, 1e21, 1.7976931348623157e308]
 
@@ -344,7 +382,8 @@ def random_case(rng, thorough):
         elif kind < 0.86:
             st.append({"a": "Validation", "s": s, "sqref": "D%d:D%d" % (rng.randint(1, 5), rng.randint(6, 9)), "list": rng.choice(["\"x,y\"", "$A$1:$A$3", "\"a & b,<c>\""])})
         elif kind < 0.90:
-            st.append({"a": "CondFmt", "s": s, "sqref": "E%d:F%d" % (rng.randint(1, 5), rng.randint(6, 9)), "rules": rng.randint(1, 3)})
+            kinds = [rng.choice(CF_KINDS) for _ in range(rng.choice([1, 1, 2, 3, 5]))]
+            st.append(condfmt(s, "E%d:F%d" % (rng.randint(1, 5), rng.randint(6, 9)), kinds))
         elif kind < 0.92:
             st.append({"a": "Protect", "s": s})
         elif kind < 0.93:
